@@ -48,7 +48,7 @@ class Check(core.CheckBase):
                 if self.mine(index):
                     yield {'kind': 'seed', 'cls': name, 'seed_index': seed_index}
         for name in sorted(self.generators):
-            blocks = 1 if self.tier == 'quick' else 30
+            blocks = 4 if self.tier == 'quick' else 60
             for block in range(blocks):
                 index += 1
                 if self.mine(index):
@@ -58,7 +58,7 @@ class Check(core.CheckBase):
         found = []
         if case['kind'] == 'generated':
             rng = random.Random('C01/gen/%s/%s/%s' % (self.seed, case['gen'], case['block']))
-            for label, obj in self.generators[case['gen']](rng, 25):
+            for label, obj in self.generators[case['gen']](rng, 60):
                 found.extend(self.judge_object(obj, 'generated', dict(case, label=label), strict=True))
             return found
         name = case['cls']
